@@ -24,7 +24,8 @@ TRUSTED.append('lock contention is produced in one thread: the lock holder is a 
 TRUSTED.append('threads sharing one Cache object (shared_block_races) are driven by the deterministic scheduler of harness/sched.py: one traced SQL statement / '
                'file operation at a time, with a further switch point right after BEGIN / COMMIT / ROLLBACK; switches inside a statement or between two '
                'bytecodes that touch no database or file are not explored')
-ASSUMPTIONS = ['the file clause is proved for the counters only (C08_counters); files-vs-rows agreement is decided by the monitor and by the row/file correspondence of every history',
+ASSUMPTIONS = ['rejected calls (bad argument types) are decided by the monitor only: the row model takes well-typed calls',
+               'the file clause is proved for the counters only (C08_counters); files-vs-rows agreement is decided by the monitor and by the row/file correspondence of every history',
                'concurrent clause: see C05']
 
 W = {'set': 16, 'add': 8, 'get': 8, 'contains': 2, 'touch': 4, 'incr': 6, 'pop': 6, 'delete': 5, 'delitem': 2,
@@ -623,6 +624,271 @@ def text_values(ctx, res, stats):
                 c.close()
 
 
+# ---------------------------------------------------------------------------
+# REJECTED calls: a storing entry point called with arguments that make it raise.  "After any history of operations, whether they
+# succeeded, failed ..." -- a call that fails because of its arguments is a failed operation like one that fails because of a fault.
+
+class _FailingStream:
+    """a binary stream whose read() fails after `good` successful reads (an unreadable upload, a broken pipe)"""
+
+    def __init__(self, chunk, good):
+        self.chunk, self.good = chunk, good
+
+    def read(self, n=-1):
+        if self.good <= 0:
+            raise OSError('stream became unreadable')
+        self.good -= 1
+        return self.chunk
+
+
+class _RaisesWhenPickled:
+    def __reduce__(self):
+        raise ValueError('this object refuses to be pickled')
+
+
+def _rej_bad(kind):
+    """arguments of the wrong kind, built afresh for every call: [(name, maker)]"""
+    import datetime
+    import io
+    if kind == 'expire':          # cannot be added to a float / cannot be bound
+        return [('timedelta', lambda: datetime.timedelta(seconds=5)), ('str', lambda: '60'), ('list', lambda: [60]), ('complex', lambda: 1j),
+                ('object', lambda: object()), ('dict', lambda: {'seconds': 5})]
+    if kind == 'tag':             # cannot be bound to a column
+        return [('tuple', lambda: ('t',)), ('list', lambda: ['t']), ('dict', lambda: {'a': 1}), ('object', lambda: object()),
+                ('surrogate', lambda: 't\ud800'), ('huge_int', lambda: 2 ** 70)]
+    if kind == 'key':
+        return [('lambda', lambda: (lambda: 0)), ('tuple_with_lambda', lambda: ('k', lambda: 0)), ('surrogate', lambda: 'k\ud800'),
+                ('raises_when_pickled', lambda: ('k', _RaisesWhenPickled()))]
+    if kind == 'value':           # (value, read)
+        return [('lambda', lambda: ((lambda: 0), False)), ('list_with_lambda', lambda: (['x' * 100, lambda: 0], False)),
+                ('raises_when_pickled', lambda: (['y' * 100, _RaisesWhenPickled()], False)),
+                ('long_text_with_surrogate', lambda: ('y' * 50 + '\ud800', False)),
+                ('stream_failing_at_once', lambda: (_FailingStream(b'a' * 3000, 0), True)),
+                ('stream_failing_later', lambda: (_FailingStream(b'a' * 3000, 2), True)),
+                ('text_stream', lambda: (io.StringIO('text' * 20), True)),
+                ('read_of_a_str', lambda: ('abc' * 20, True)), ('read_of_none', lambda: (None, True))]
+    if kind == 'delta':
+        return [('str', lambda: 'x'), ('none', lambda: None), ('list', lambda: [1]), ('beyond_int64', lambda: 2 ** 63)]
+    if kind == 'default':
+        return [('str', lambda: 'zero'), ('list', lambda: [0])]
+    if kind == 'side':
+        return [('middle', lambda: 'middle'), ('none', lambda: None), ('int', lambda: 0)]
+    if kind == 'prefix':
+        return [('int', lambda: 5), ('bytes', lambda: b'q'), ('list', lambda: ['q'])]
+    raise ValueError(kind)
+
+
+def _rej_value(name, n):
+    """the (good) value stored by the call: kept in a value file except 'inline'; -> (value, read)"""
+    import io
+    if name == 'text':
+        return 'x' * (50 + n % 7), False
+    if name == 'bytes':
+        return b'y' * (50 + n % 7), False
+    if name == 'pickle':
+        return tuple(range(30 + n % 7)), False
+    if name == 'stream':
+        return io.BytesIO(b'z' * (50 + n % 7)), True
+    return 5, False
+
+
+REJ_VALUES = ['text', 'bytes', 'pickle', 'stream', 'inline']
+
+# container -> entry point -> (kinds of bad argument it takes, accepts read=True streams, f(o, a)); a = dict(key, value, read, expire, tag, delta,
+# default, side, prefix) with the good defaults filled in
+REJ_ENTRIES = {
+    'Cache': {
+        'set': (['expire', 'tag', 'key', 'value'], True, lambda o, a: o.set(a['key'], a['value'], expire=a['expire'], read=a['read'], tag=a['tag'])),
+        'add': (['expire', 'tag', 'key', 'value'], True, lambda o, a: o.add(a['key'], a['value'], expire=a['expire'], read=a['read'], tag=a['tag'])),
+        'setitem': (['key', 'value'], False, lambda o, a: o.__setitem__(a['key'], a['value'])),
+        'push': (['expire', 'tag', 'value', 'side', 'prefix'], True,
+                 lambda o, a: o.push(a['value'], prefix=a['prefix'], side=a['side'], expire=a['expire'], read=a['read'], tag=a['tag'])),
+        'touch': (['expire'], False, lambda o, a: o.touch('p-file', expire=a['expire'])),
+        'incr': (['delta', 'default', 'key'], False, lambda o, a: o.incr(a['key'], a['delta'], a['default'])),
+        'decr': (['delta'], False, lambda o, a: o.decr(a['key'], a['delta'], a['default'])),
+    },
+    'DjangoCache': {
+        'set': (['expire', 'tag', 'key', 'value'], True, lambda o, a: o.set(a['key'], a['value'], timeout=a['expire'], read=a['read'], tag=a['tag'])),
+        'add': (['expire', 'tag', 'key', 'value'], True, lambda o, a: o.add(a['key'], a['value'], timeout=a['expire'], read=a['read'], tag=a['tag'])),
+        'set_many': (['expire', 'value'], False, lambda o, a: o.set_many({a['key']: a['value']}, timeout=a['expire'])),
+        'get_or_set': (['expire', 'value'], False, lambda o, a: o.get_or_set(a['key'], a['value'], timeout=a['expire'])),
+        'touch': (['expire'], False, lambda o, a: o.touch('p-file', timeout=a['expire'])),
+        'incr': (['delta'], False, lambda o, a: o.incr(a['key'], a['delta'])),
+        'decr': (['delta'], False, lambda o, a: o.decr(a['key'], a['delta'])),
+    },
+    'Deque': {
+        'append': (['value'], False, lambda o, a: o.append(a['value'])),
+        'appendleft': (['value'], False, lambda o, a: o.appendleft(a['value'])),
+        'extend': (['value'], False, lambda o, a: o.extend([a['value']])),
+        'extendleft': (['value'], False, lambda o, a: o.extendleft([a['value']])),
+        'setitem': (['value'], False, lambda o, a: o.__setitem__(1, a['value'])),
+        'iadd': (['value'], False, lambda o, a: o.__iadd__([a['value']])),
+    },
+    'Index': {
+        'setitem': (['key', 'value'], False, lambda o, a: o.__setitem__(a['key'], a['value'])),
+        'setdefault': (['key', 'value'], False, lambda o, a: o.setdefault(a['key'], a['value'])),
+        'update': (['key', 'value'], False, lambda o, a: o.update([(a['key'], a['value'])])),
+        'push': (['value', 'side', 'prefix'], False, lambda o, a: o.push(a['value'], prefix=a['prefix'], side=a['side'])),
+    },
+}
+REJ_ENTRIES['FanoutCache'] = {k: v for k, v in REJ_ENTRIES['Cache'].items() if k != 'push'}
+REJ_CONTAINERS = ['Cache', 'FanoutCache', 'DjangoCache', 'Deque', 'Index']
+# Regression input of a repaired defect (known_findings.txt, fixed: property=C08 050ece2): Cache(disk_min_file_size=8).push('x' * 50, side='middle')
+# raised KeyError('middle') from `order[side]` AFTER Disk.store had written the value file and BEFORE the transaction that would remove it ->
+# an orphan value file (check(): 'unknown file'); the same through Index.push.  The entry `push` x bad `side` stays in the sweep; a return of the
+# defect is reported as rejected_call:unknown_file:push:side.
+
+
+def _django_cache():
+    from django.conf import settings
+    if not settings.configured:
+        settings.configure()
+    from diskcache.djangocache import DjangoCache
+    return DjangoCache
+
+
+class RejEnv:
+    """one container with some contents (inline and file-backed items, queue items) on which rejected calls are made one after the other"""
+
+    def __init__(self, mkdir, container):
+        self.container = container
+        d = mkdir()
+        kw = dict(disk_min_file_size=8)
+        if container == 'Cache':
+            self.obj = diskcache.Cache(d, **kw)
+            self.dirs = [d]
+        elif container == 'FanoutCache':
+            self.obj = diskcache.FanoutCache(d, shards=2, **kw)
+            self.dirs = [os.path.join(d, '%03d' % i) for i in range(2)]
+        elif container == 'DjangoCache':
+            self.obj = _django_cache()(d, {'SHARDS': 2, 'OPTIONS': kw})
+            self.dirs = [os.path.join(d, '%03d' % i) for i in range(2)]
+        elif container == 'Deque':
+            self.obj = diskcache.Deque.fromcache(diskcache.Cache(d, **kw), ['first', 'f' * 60, ('third',) * 9])
+            self.dirs = [d]
+        else:
+            self.obj = diskcache.Index.fromcache(diskcache.Cache(d, **kw))
+            self.dirs = [d]
+        o = self.obj
+        if container in ('Cache', 'FanoutCache', 'DjangoCache'):
+            o.set('p-inline', 1)
+            o.set('p-file', 'f' * 60)
+            o.set('p-pickle', tuple(range(40)))
+            o.set('ctr', 5)
+            if container == 'Cache':
+                o.push('q' * 40)
+                o.push('r' * 40, prefix='q')
+        elif container == 'Index':
+            o['p-inline'] = 1
+            o['p-file'] = 'f' * 60
+            o.push('q' * 40)
+
+    def snapshot(self):
+        return [seqdrv.observe(d) for d in self.dirs]
+
+    def close(self):
+        try:
+            (self.obj.cache if self.container in ('Deque', 'Index') else self.obj).close()
+        except Exception:  # noqa
+            pass
+
+
+def rejected_case(env, p):
+    """One call of entry point p['entry'] with ONE argument of the wrong kind (p['kind'], p['bad']) and otherwise good arguments (the value
+    p['value'] is file-backed unless 'inline').  -> (problems [(sig, text)], outcome)"""
+    kinds, takes_read, f = REJ_ENTRIES[env.container][p['entry']]
+    n = p.get('n', 0)
+    value, read = _rej_value(p['value'], n)
+    a = {'key': 'new-%d' % n, 'value': value, 'read': read, 'expire': None, 'tag': None, 'delta': 1, 'default': 0, 'side': 'back', 'prefix': None}
+    if p['entry'] in ('incr', 'decr'):
+        a['key'] = 'ctr' if p['kind'] == 'delta' else a['key']
+    bad = dict(_rej_bad(p['kind']))[p['bad']]()
+    if p['kind'] == 'value':
+        a['value'], a['read'] = bad
+        if a['read'] and not takes_read:
+            return [], 'not-applicable'
+    else:
+        a[p['kind']] = bad
+    before = env.snapshot()
+    try:
+        r = f(env.obj, a)
+        outcome = 'accepted'
+    except Exception as e:  # noqa
+        outcome = 'raised:' + type(e).__name__
+    after = env.snapshot()
+    problems = []
+    what = '%s.%s with %s = %s (%s)%s %s' % (env.container, p['entry'], p['kind'], p['bad'], repr(bad)[:40],
+                                            '' if p['kind'] == 'value' else ' and a %s value' % p['value'], outcome.replace(':', ' '))
+    for d in env.dirs:
+        bad_, _ = consistency(d)
+        for sig, text in bad_[:2]:
+            problems.append(('rejected_call:%s:%s:%s' % (sig, p['entry'], p['kind']), '%s: %s' % (what, text)))
+    if outcome != 'accepted' and not problems and after != before:
+        diffs = []
+        for (r0, s0, f0), (r1, s1, f1) in zip(before, after):
+            if r0 != r1:
+                diffs.append('rows %d -> %d%s' % (len(r0), len(r1), '' if len(r0) != len(r1) else ' (columns changed)'))
+            if set(f0) != set(f1):
+                diffs.append('files +%d -%d' % (len(set(f1) - set(f0)), len(set(f0) - set(f1))))
+            if (s0['count'], s0['size']) != (s1['count'], s1['size']):
+                diffs.append('count/size %r -> %r' % ((s0['count'], s0['size']), (s1['count'], s1['size'])))
+        if diffs:
+            problems.append(('rejected_call:contents_changed:%s:%s' % (p['entry'], p['kind']), '%s but changed the contents: %s' % (what, '; '.join(diffs))))
+    return problems, outcome
+
+
+def rejected_calls(ctx, res, stats, thorough):
+    """Every storing entry point of Cache / FanoutCache / DjangoCache / Deque / Index x every kind of argument that makes it raise (expire that
+    cannot be added to a time, tag / key that cannot be bound or pickled, value that cannot be pickled / encoded / read, bad incr delta or
+    default, bad push side or prefix) x file-backed and inline values.  After every such call: counters == rows, every file row has its file,
+    no value file without a row, and -- the call raised -- rows, counters and files exactly as before; check() silent at the end."""
+    st = stats.setdefault('rejected_calls', {'calls': 0, 'raised': {}, 'accepted': 0})
+    n = 0
+    for container in REJ_CONTAINERS:
+        env = RejEnv(lambda: ctx.scratch('c08rj'), container)
+        try:
+            for entry in sorted(REJ_ENTRIES[container]):
+                kinds, takes_read, _ = REJ_ENTRIES[container][entry]
+                for kind in kinds:
+                    for bname, _mk in _rej_bad(kind):
+                        if kind == 'value' or entry in ('touch', 'incr', 'decr'):
+                            vnames = ['inline']
+                        else:
+                            vnames = [v for v in REJ_VALUES if v != 'stream' or takes_read]
+                            if not thorough:
+                                vnames = [vnames[(n + ctx.seed) % len(vnames)], vnames[(n + ctx.seed + 2) % len(vnames)]]
+                        for vname in vnames:
+                            n += 1
+                            p = {'check': 'rejected_call', 'container': container, 'entry': entry, 'kind': kind, 'bad': bname, 'value': vname, 'n': n}
+                            problems, outcome = rejected_case(env, p)
+                            if outcome == 'not-applicable':
+                                continue
+                            st['calls'] += 1
+                            if outcome == 'accepted':
+                                st['accepted'] += 1
+                            else:
+                                st['raised'][outcome[7:]] = st['raised'].get(outcome[7:], 0) + 1
+                            res.count(['rejected', container, entry, kind, bname, vname], nontrivial=outcome != 'accepted')
+                            for sig, text in problems[:2]:
+                                res.violations.append(fw.Violation(sig, text, dict(p)))
+                            if problems:
+                                env.close()
+                                env = RejEnv(lambda: ctx.scratch('c08rj'), container)
+                # the library's own check over what is left
+                for d in env.dirs:
+                    c = diskcache.Cache(d)
+                    try:
+                        libw = lib_check(c)
+                    finally:
+                        c.close()
+                    if libw:
+                        res.violations.append(fw.Violation('rejected_call:check_warns:%s' % entry, '%s: after the rejected calls of %s check() reports %s'
+                                                           % (container, entry, libw[:2]), {'check': 'rejected_series', 'container': container, 'entry': entry}))
+        finally:
+            env.close()
+    res.sample({'check': 'rejected_calls', 'containers': REJ_CONTAINERS, 'calls': st['calls'], 'raised': st['raised'], 'accepted': st['accepted']})
+
+
 def witnesses(res):
     import tempfile, shutil
     d = tempfile.mkdtemp(prefix='c08wit-')
@@ -826,6 +1092,13 @@ def run(ctx, big=False):
                 'two THREADS sharing one Cache object, one inside a transact block that commits or aborts, the other popping / pulling / deleting / '
                 'replacing file-backed values, every two-switch placement under the deterministic scheduler, decided when both have finished; '
                 'row/file model compared after every call.  '
+                'REJECTED calls: every storing entry point (Cache / FanoutCache set, add, []=, incr, decr, touch, Cache.push; DjangoCache set, add, set_many, '
+                'get_or_set, touch, incr, decr; Deque append(left), extend(left), +=, []=; Index []=, setdefault, update, push) with ONE argument that makes it '
+                'raise (expire: timedelta / str / list / complex / object / dict; tag: tuple / list / dict / object / lone surrogate / 2^70; key: unpicklable or '
+                'unencodable; value: unpicklable, raising while pickled, text with a lone surrogate, stream that fails at once / after two chunks / yields '
+                'text, read=True of a non-stream; incr delta / default of the wrong type or beyond 2^63; push side / prefix of the wrong kind) and otherwise '
+                'good arguments with text / bytes / pickled / stream values kept in files (and an inline one) on a populated container: after every such call '
+                'the clauses above hold and rows, counters and files are exactly as before; check() silent.  '
                 'non-trivial = at least one value file exists in the observed state / the fault fired.')
     stats = {'states': 0, 'file_rows': 0, 'fault_runs': 0, 'faults_fired': 0, 'unencodable': 0}
     thorough = not ctx.quick or big
@@ -837,6 +1110,7 @@ def run(ctx, big=False):
     text_values(ctx, res, stats)
     removal_races(ctx, res, stats, thorough)
     shared_block_races(ctx, res, stats, not ctx.quick)       # (search mode keeps the quick family: it is systematic already)
+    rejected_calls(ctx, res, stats, thorough)
     if not ctx.search_mode:
         correspondence(ctx, res, terms, recs)
     res.extra.update({'states_checked': stats['states'], 'file_backed_rows_seen': stats['file_rows'],
@@ -844,7 +1118,7 @@ def run(ctx, big=False):
                       'open_race_schedules': stats.get('open_race_runs', 0), 'removal_race_schedules': stats.get('removal_race_runs', 0),
                       'shared_object_block_race_schedules': stats.get('shared_block_race_runs', 0),
                       'lock_contention_cases': stats.get('contention_cases', 0), 'calls_that_gave_up_on_the_lock': stats.get('contention_timeouts', 0),
-                      'calls_that_waited_for_the_lock': stats.get('contention_waits', 0)})
+                      'calls_that_waited_for_the_lock': stats.get('contention_waits', 0), 'rejected_calls': stats.get('rejected_calls')})
     witnesses(res)
     return res
 
@@ -870,6 +1144,20 @@ def replay(payload):
             print('log:', ' '.join('%d:%s' % (c, w) for c, w, _ in r['log']))
             print('results:', [[rec['client'], rec['op'], rec.get('result', rec.get('exc'))] for recs in r['calls'] for rec in recs])
             print('monitor:', problems)
+            return not problems
+        finally:
+            ctx.cleanup()
+    if case.get('check') == 'rejected_call':
+        ctx = fw.Ctx('C08', 'quick', 1)
+        try:
+            env = RejEnv(lambda: ctx.scratch('c08rj'), case['container'])
+            try:
+                problems, outcome = rejected_case(env, case)
+            finally:
+                env.close()
+            print('%s.%s with a bad %s (%s): %s' % (case['container'], case['entry'], case['kind'], case['bad'], outcome))
+            for sig, text in problems:
+                print(sig, text)
             return not problems
         finally:
             ctx.cleanup()
